@@ -19,10 +19,10 @@ RULE = (
 )
 ASSUMPTIONS = [
     "scipy.signal.convolve(method='direct') in float64 is the trusted aperiodic convolution",
-    "tolerance 64*eps*(pointwise sum|G||f| + 0.05*||f||2*||G||2)*dx^d models FFT round-off; calibrated headroom >= 10x",
+    "tolerance 256*eps*(pointwise sum|G||f| + 0.25*||f||2*||G||2)*dx^d models FFT round-off; calibrated headroom >= 10x",
     "bitwise history independence is only asserted inside one process / one FFTW plan",
 ]
-REQUIRE = {"sibling_objects_same_shape_other_domain_length": 4, "solves_vs_direct_convolution": 4, "impulse_cells_compared": 100, "history_probes_bitwise": 2}
+REQUIRE = {"long_axis_objects": 2, "vector_solves_with_zero_components": 2, "sibling_objects_same_shape_other_domain_length": 4, "solves_vs_direct_convolution": 4, "impulse_cells_compared": 100, "history_probes_bitwise": 2}
 XR = (0.37, 1.0, 2 * np.pi, 10.0)
 
 
@@ -35,7 +35,7 @@ def shards(tier, seed):
 
 
 def _tol(eps, f, G, dx, d, bound):
-    return 64 * eps * (bound + 0.05 * np.linalg.norm(f) * np.linalg.norm(G) * dx**d) + 1e-300
+    return 256 * eps * (bound + 0.25 * np.linalg.norm(f) * np.linalg.norm(G) * dx**d) + 1e-300
 
 
 def run_shard(sh, rec):
@@ -53,6 +53,13 @@ def run_shard(sh, rec):
         shape = util.shape2d(rng, 3, hi) if d == 2 else util.shape3d(rng, 3, hi)
         if k == 0 and sh["idx"] % 5 == 0:
             shape = tuple([3] * (d - 1) + [int(rng.integers(3, 9))])  # minimal slab
+        if k == 0 and sh["idx"] % 5 in (1, 2):
+            # one long axis (33..72 cells) with thin other axes: blocked / slab-wise construction of the Green's function table
+            # (blocks of 32 or 64 planes of the doubled domain) is only exercised by long axes
+            ls = [int(x) for x in rng.integers(2, 5, size=d)]
+            ls[int(rng.integers(d))] = int(rng.integers(33, 73))
+            shape = tuple(ls)
+            rec.count("long_axis_objects")
         xr = float(XR[int(rng.integers(len(XR)))])
         nt = int(rng.choice([1, 4]))
         if prev is not None and k % 2 == 1:
@@ -183,6 +190,12 @@ def run_shard(sh, rec):
             uv = util.sentinel_like(rng, (3, *shape), real_t)
             try:
                 fv0 = fv.copy()
+                if k % 2 == 1:
+                    # planar / axis-aligned right-hand side: one or two components exactly zero (output is sentinel-filled)
+                    zc = rng.permutation(3)[: int(rng.integers(1, 3))]
+                    fv[zc] = 0
+                    fv0 = fv.copy()
+                    rec.count("vector_solves_with_zero_components")
                 s.vector_field_solve(solution_vector_field=uv, rhs_vector_field=fv)
                 ok = util.bits_equal(fv, fv0)
                 for c in range(3):
